@@ -1,4 +1,5 @@
 (* C16 — meta encoding. Property theorems only; proofs live in Meta/Thms.v. *)
+From V Require Import Flate.Spec XFlate.Reader XFlate.RoundTripStmt Meta.Stream Meta.Deflate Meta.DeflateStream.
 From V Require Import Base.Prelude Base.Prog Meta.Model Meta.Thms.
 From V Require Import Meta.RoundTrip.
 
@@ -55,3 +56,40 @@ Theorem meta_block_is_whole_bytes : forall buf final bits,
   N.of_nat (length bits) mod 8 = 0.
 Proof. exact meta_block_length_aligned. Qed.
 Print Assumptions meta_block_is_whole_bytes.
+
+(* LOSSLESS for whole payloads: the Writer never fails on a byte payload (it never hands
+   encodeBlock a buffer that does not fit) ... *)
+Theorem meta_writer_never_fails : meta_encode_total_stmt.
+Proof. exact meta_encode_total. Qed.
+Print Assumptions meta_writer_never_fails.
+
+(* ... and the Reader over the Writer's output - all blocks of a payload of ANY length,
+   followed by anything when the last block carries a final mode - returns exactly the
+   payload, the mode, the number of blocks and the bytes consumed. (The premise on the
+   encoded length is the decoder MODEL's loop budget of 2^40 blocks; the Go loop has none.) *)
+Theorem meta_stream_decodes_to_payload_and_mode : meta_stream_roundtrip_stmt.
+Proof. exact meta_stream_roundtrip. Qed.
+Print Assumptions meta_stream_decodes_to_payload_and_mode.
+
+(* a payload of up to 22 bytes is ONE block (what the XFLATE footer relies on) *)
+Theorem meta_small_payload_is_one_block : meta_small_single_block_stmt.
+Proof. exact meta_small_single_block. Qed.
+Print Assumptions meta_small_payload_is_one_block.
+
+(* BACKWARD COMPATIBLE: for EVERY payload and mode, the RFC 1951 decoder model reads a meta
+   block - at any position, after any history, followed by anything - as ONE dynamic-Huffman
+   block that produces no output and ends exactly at the end of the block, with the final
+   bit set iff the mode is FinalStream *)
+Theorem meta_block_is_an_empty_deflate_block : meta_block_is_empty_deflate_stmt.
+Proof. exact meta_block_is_empty_deflate. Qed.
+Print Assumptions meta_block_is_an_empty_deflate_block.
+
+(* whole payloads: with FinalNil / FinalMeta a sequence of complete non-final blocks without
+   output; with FinalStream a complete DEFLATE stream without output, whatever follows *)
+Theorem meta_payload_is_nonfinal_empty_deflate_blocks : meta_nonfinal_blocks_stmt.
+Proof. exact meta_nonfinal_blocks. Qed.
+Print Assumptions meta_payload_is_nonfinal_empty_deflate_blocks.
+
+Theorem meta_final_stream_payload_is_a_complete_empty_deflate_stream : meta_footer_chunk_stmt.
+Proof. exact meta_footer_chunk. Qed.
+Print Assumptions meta_final_stream_payload_is_a_complete_empty_deflate_stream.
